@@ -156,4 +156,49 @@ example : (connEnd ([[1, 0, 0], [8, 0, 0, 0, 7, 1, 2], [0, 12, 0, 0, 0, 9, 0xde,
             (swFeedH sliceU (raisesOn [hello])) init)).st = .closed := by decide
 example : raisesOn [hello] hello = .raised ∧ raisesOn [hello] echo = .returned := by decide
 
+/-! ## A configuration that changes the decode path
+
+With `openflow.nicira` loaded the OFPT_VENDOR entry of the controller's table of unpackers is `_unpack_nx_vendor`
+(`replaceEntry U 4 (nxVendor U N)`): it reads the vendor id, and only for a Nicira message the subtype behind it.  The
+framing statement is the same in that configuration, for every message that is well-formed there (`NxWF`): in
+particular for another vendor's message of exactly 12 bytes with nothing behind it in the buffer. -/
+
+/-- **ctl_framing_nicira**: controller side, whole stream, `openflow.nicira` loaded. -/
+theorem ctl_framing_nicira (U : Unpack Msg) (N : Nat → Option (Unpack Msg)) (ms : List (Bytes × Msg)) (chunks : List Bytes)
+    (hwf : ∀ p ∈ ms, NxWF U N p.1 p.2) (hseg : chunks.flatten = (ms.map (·.1)).flatten) :
+    let r := chunks.foldl (ctlFeed (replaceEntry U 4 (nxVendor U N)) 8) init
+    r.delivered = ms.map (·.2) ∧ r.buf = [] ∧ r.st = .alive :=
+  ctl_framing _ ms chunks (fun p hp => (hwf p hp).wf) hseg
+
+/-- **ctl_prefix_nicira**: controller side, any prefix of the stream, `openflow.nicira` loaded. -/
+theorem ctl_prefix_nicira (U : Unpack Msg) (N : Nat → Option (Unpack Msg)) (ms : List (Bytes × Msg)) (chunks : List Bytes)
+    (rest : Bytes) (hwf : ∀ p ∈ ms, NxWF U N p.1 p.2) (hseg : chunks.flatten ++ rest = (ms.map (·.1)).flatten) :
+    let r := chunks.foldl (ctlFeed (replaceEntry U 4 (nxVendor U N)) 8) init
+    ∃ done rem tl, ms = done ++ rem ∧ r.delivered = done.map (·.2) ∧ r.buf = tl ∧ r.st = .alive ∧
+      chunks.flatten = (done.map (·.1)).flatten ++ tl ∧
+      (tl = [] ∨ ∃ e m rem' y, rem = (e, m) :: rem' ∧ e = tl ++ y ∧ y ≠ []) :=
+  ctl_prefix _ ms chunks rest (fun p hp => (hwf p hp).wf) hseg
+
+/-- non-vacuity: a bare 12-byte message of another vendor, a bare 16-byte Nicira header and a HELLO are `NxWF` for the
+    slice decoder; one message per read (nothing behind the 12-byte message when it is decoded) delivers all three. -/
+def vendor12 : Bytes := [1, 4, 0, 12, 0, 0, 0, 6, 0, 0x5c, 0x16, 0xc7]
+def nicira16 : Bytes := [1, 4, 0, 16, 0, 0, 0, 7, 0, 0, 0x23, 0x20, 0, 0, 0, 0x7f]
+example : NxWF sliceU (fun _ => none) vendor12 vendor12 :=
+  .inr (.inl ⟨by decide, by decide, by decide, sliceU_wf _ ⟨by decide, by decide, by decide, by decide⟩⟩)
+example : NxWF sliceU (fun _ => none) nicira16 nicira16 :=
+  .inr (.inr ⟨by decide, by decide, by decide, sliceU_wf _ ⟨by decide, by decide, by decide, by decide⟩⟩)
+example : NxWF sliceU (fun _ => none) hello hello := .inl ⟨by decide, sliceU_wf _ ⟨by decide, by decide, by decide, by decide⟩⟩
+example : ([vendor12, nicira16, hello].foldl (ctlFeed (replaceEntry sliceU 4 (nxVendor sliceU (fun _ => none))) 8) init).delivered
+    = [vendor12, nicira16, hello] := by decide
+
+/-- **nx_eager_lookahead_breaks**: why the entry must not read vendor id and subtype in one access (`nxVendorEager`): the
+    same two well-formed messages are delivered when they arrive in one read, and kill the connection (an exception
+    leaves `read()`) when the read ends behind the 12-byte message — framing would depend on the segmentation. -/
+theorem nx_eager_lookahead_breaks :
+    ([vendor12 ++ hello].foldl (ctlFeed (replaceEntry sliceU 4 (nxVendorEager sliceU (fun _ => none))) 8) init).delivered
+      = [vendor12, hello] ∧
+    ([vendor12, hello].foldl (ctlFeed (replaceEntry sliceU 4 (nxVendorEager sliceU (fun _ => none))) 8) init).st = .dead ∧
+    ([vendor12, hello].foldl (ctlFeed (replaceEntry sliceU 4 (nxVendor sliceU (fun _ => none))) 8) init).delivered
+      = [vendor12, hello] := by decide
+
 end Pox.C02
